@@ -217,3 +217,54 @@ def size_class(n):
         if n <= lim:
             return name
     return ">=2^24"
+
+
+# ----------------------------------------------------------------- signatures with a rare shape
+# Found by an offline search (monitor/data/rare_sigs.json; about 1.2 M RFC 6979 signatures, 6 minutes on 5 cores): raw digests and
+# transactions of each kind whose deterministic signature under RARE_KEY has two or three leading zero bytes in r or s, or one in
+# both. By volume such a signature turns up once in 2^16 (2^24) signatures; encoders that handle "a leading zero byte" and
+# "several leading zero bytes" differently only show there.
+RARE_KEY = 0x4c0883a69102937d6231471b5dbb6204fe5129617082792ae468d01a3f362318
+_RARE = None
+
+
+def rare_sigs():
+    global _RARE
+    if _RARE is None:
+        import json
+        import os
+        with open(os.path.join(os.path.dirname(os.path.abspath(__file__)), "data", "rare_sigs.json")) as f:
+            d = json.load(f)
+        assert int(d["key"], 16) == RARE_KEY
+        _RARE = d["found"]
+    return _RARE
+
+
+def rare_sig_tx(kind, nonce):
+    """The transaction the search signed (must stay in step with the search script's constructor)."""
+    t = {"kind": kind, "nonce": nonce, "gas": 21000, "value": 10**18, "to": bytes.fromhex("35" * 20), "data": b""}
+    if kind == LEGACY:
+        t["gasPrice"] = 20 * 10**9
+        t["chainId"] = 1
+    elif kind == T2930:
+        t["gasPrice"] = 20 * 10**9
+        t["chainId"] = 1
+        t["accessList"] = []
+    else:
+        t["maxPriorityFeePerGas"] = 10**9
+        t["maxFeePerGas"] = 30 * 10**9
+        t["chainId"] = 1
+        t["accessList"] = []
+    return t
+
+
+def sig_shape_buckets(v, r, s):
+    """Observation classes for the shape of a signature the tool produced."""
+    zr = 32 - (r.bit_length() + 7) // 8
+    zs = 32 - (s.bit_length() + 7) // 8
+    if zr:
+        v.bucket("sig-r-%d-zero-bytes" % min(zr, 3))
+    if zs:
+        v.bucket("sig-s-%d-zero-bytes" % min(zs, 3))
+    if zr and zs:
+        v.bucket("sig-r-and-s-zero-bytes")
